@@ -127,7 +127,7 @@ def gen_chains(ctx):
     cases, n = [], 0
     for cn, (mk, allowed) in ct_contexts().items():
         for depth in (0, 1, 2, 3, 4):
-            reps = 2 if not ctx.thorough else 8
+            reps = 8 if not ctx.thorough else 24
             for rep in range(reps):
                 i = r.randrange(len(MUT_ENDS))
                 st = r.getstate()
@@ -163,7 +163,7 @@ def gen_template_level(ctx):
     }
     for cn, mk in tctx.items():
         for depth in (0, 1, 2, 3):
-            for rep in range(1 if not ctx.thorough else 4):
+            for rep in range(4 if not ctx.thorough else 12):
                 st = r.getstate()
                 for twin in (False, True):
                     r.setstate(st)
@@ -270,7 +270,7 @@ GLOBAL_RE = re.compile(r"\b(g[0-3]|ga|gs)\b")
 def gen_random_programs(ctx):
     r = ctx.rng
     cases = []
-    nprog = 160 if not ctx.thorough else 2000
+    nprog = 800 if not ctx.thorough else 6000
     for pi in range(nprog):
         prog = C11.RandProg(r, r.randint(2, 6))
         # which globals each function touches, transitively (independent of the library: regex over the generated text)
@@ -356,11 +356,12 @@ def run(ctx):
         broken = core.failing_theorems(log)
         ctx.log("proof broken:", broken or log[-1500:])
     # 4 search ------------------------------------------------------------------------------------------------------
-    b = core.build_repo("asan")
-    exe = core.build_harness(b, "c13", ["c13.cpp"])
     cases = gen_chains(ctx) + gen_template_level(ctx) + gen_template_params(ctx) + gen_free_params(ctx) + gen_random_builtin(ctx) + gen_random_programs(ctx)
     ctx.log("generated %d models" % len(cases))
-    recs, crashes = G.run_harness(core, exe, cases)
+    recs, crashes, differ, nsan = G.run_both(core, "c13", "c13.cpp", cases, ctx.thorough, ctx.log)
+    cov["models_also_run_under_sanitizers"] = nsan
+    for c in differ[:3]:
+        ctx.finding("build-variant:" + c.shape, "diagnostics differ between the -O2 and the ASan+UBSan build of the library", c.replay_obj())
     for bad, rc, err in crashes:
         ctx.finding("crash:" + bad.shape, "harness died (rc=%s) on a generated model" % rc, dict(bad.replay_obj(), stderr=err))
     # 3 correspondence (first: it also yields the computed exception set) ----------------------------------------------
@@ -378,7 +379,7 @@ def run(ctx):
                 continue
             ncorr += 1
             nfun += len(rec["FI"])
-            nctx += len(rec["X"])
+            nctx += G.own_contexts(rec)
             nrs += len(rec["RI"])
             dv = drv.get(c.cid)
             if dv and dv["exceptions"] is not None:
@@ -451,6 +452,8 @@ def run(ctx):
     cov["correspondence_context_expressions_compared"] = nctx
     cov["correspondence_restricted_sets_compared"] = nrs
     cov["correspondence_disagreements"] = ndis
+    cov["hypotheses_validated_on_real_programs"] = {"declaredBeforeUse (C11_sound / C13_sound)": ncorr - ndis if ncorr else 0,
+                                                   "how": "drv evaluates the decidable hypothesis on every dumped program; a failure counts as a disagreement"}
     if first_dis and nviol == 0:
         c, d = first_dis
         ctx.finding("unproved:correspondence:effects", "Lean model and library disagree on %d of %d models; first: %s"
